@@ -9,7 +9,7 @@ from mc import registry
 HERE = os.path.dirname(os.path.dirname(os.path.abspath(__file__)))
 
 # properties whose checks are built and silent on the unchanged tree
-CLAIMED = ["C02", "C03", "C04", "C09", "C10", "C12", "C13", "C15", "C16", "C17", "C20"]
+CLAIMED = sorted(registry.PROPS)
 
 TECH = {
     "model_checking": "explicit-state model checking of the real implementation: BFS over deep-copied library objects, "
